@@ -3,6 +3,7 @@ import itertools
 from fractions import Fraction as F
 
 import numpy as np
+from mc.ref.linalg import allclose as _close
 
 from mc.engine import Section
 from mc.gates import G, mk_circuit
@@ -52,7 +53,7 @@ def views_case(case):
     k = 0
     wf = sim.get_wavefunction(c)
     k += 1
-    if not np.allclose(np.asarray(wf.amplitudes, dtype=complex).reshape(-1), psi, atol=TOL):
+    if not _close(np.asarray(wf.amplitudes, dtype=complex).reshape(-1), psi, atol=TOL):
         return {"ok": False, "msg": "state vector differs from the reference", "expected": str(np.round(psi, 4).tolist()), "observed": str(wf.amplitudes), "sig": "views:state"}
     dist = sim.get_measurement_outcome_distribution(c, None).distribution_dict
     k += 1
@@ -165,7 +166,7 @@ def views_case(case):
         # every supported outcome must be reachable by some answer (the enumeration is complete for 1 and 2 samples)
         return {"ok": False, "msg": "some outcome with non-zero exact probability can never be sampled", "expected": str(support), "observed": str(sorted(outcomes)), "sig": "views:unreachable"}
     rev = np.array([pref[idx_of(b[::-1], n)] for b in allkeys])
-    return {"ok": True, "nt": not np.allclose(rev, np.array([pref[idx_of(b, n)] for b in allkeys]), atol=1e-6), "ops": k + n_exec, "out": "support%d" % len(support),
+    return {"ok": True, "nt": not _close(rev, np.array([pref[idx_of(b, n)] for b in allkeys]), atol=1e-6), "ops": k + n_exec, "out": "support%d" % len(support),
             "extra": {"sampling_executions": n_exec}}
 
 
@@ -273,10 +274,10 @@ def symbolic_case(case):
         late = np.asarray(wf.bind({th: v}).amplitudes, dtype=complex).reshape(-1)
         early = np.asarray(SymbolicSimulator().get_wavefunction(circ.bind({th: v})).amplitudes, dtype=complex).reshape(-1)
         k += 2
-        if not np.allclose(late, psi, atol=TOL):
+        if not _close(late, psi, atol=TOL):
             return {"ok": False, "msg": "symbolic state vector bound at theta=%s differs from the reference state (gate on qubits %s of %d)" % (v, q, n), "expected": str(np.round(psi, 4).tolist()),
                     "observed": str(np.round(late, 4).tolist()), "sig": "symbolic:late-bind", "ops": k}
-        if not np.allclose(early, psi, atol=TOL):
+        if not _close(early, psi, atol=TOL):
             return {"ok": False, "msg": "state of the circuit bound first differs from the reference", "sig": "symbolic:early-bind", "ops": k}
     return {"ok": True, "nt": list(q) != sorted(q) or q[-1] - q[0] != len(q) - 1, "ops": k, "out": "n%d" % n}
 
